@@ -118,6 +118,18 @@ Proof.
 Qed.
 Print Assumptions C15_region_needed_refuted.
 
+(* known finding C15-macro-compiled-outside-region: a macro defined where autoescaping is
+   statically off, called inside an enabled region, is marked safe by the caller's eval context:
+   {% macro m(x) %}{{ x }}{% endmacro %}{% autoescape true %}{{ m(d) }}{% endautoescape %},
+   environment default off.  top_ok excludes it (the macro body is outside every enabled region). *)
+Theorem C15_macro_outside_region_refuted : exists t d o,
+  c15_ok t = true /\ top_ok false t = false /\ render false true [] 9 t d = Some o /\ ~ Clean o.
+Proof.
+  exists [SMacro 20 [21] [SOut (EVar 21)]; SAutoescape (AConst true) [SOut (ECall 20 [EVar 1])]], [(1, [60])], [60].
+  vm_compute. repeat split; try reflexivity. discriminate.
+Qed.
+Print Assumptions C15_macro_outside_region_refuted.
+
 (* non-vacuity: runtime-decided mode, macro + call block + set block + replace with a data
    argument + filter block + forceescape; data "<&", list ["'", ">"] *)
 Definition c15_example_t : list stmt :=
